@@ -5305,7 +5305,10 @@ class LoopSum(Loop):
         return loop_sum(_takediag(self.func, axis1, axis2), self.index)
 
     def _take(self, index, axis):
-        return loop_sum(_take(self.func, index, axis), self.index)
+        # If `index` depends on `self.index` then it belongs to an outer loop
+        # over the same index and must not be moved inside this loop.
+        if self.index not in index.arguments:
+            return loop_sum(_take(self.func, index, axis), self.index)
 
     def _unravel(self, axis, shape):
         return loop_sum(unravel(self.func, axis, shape), self.index)
